@@ -10,6 +10,7 @@
    [_partial]): go-header never looks at a header's signature, and P2P transaction data carries none. *)
 From Coq Require Import NArith ZArith List Bool.
 From Verif Require Import Model.Types Model.Admission Proofs.AdmissionProofs.
+From Verif Require Model.Retriever.
 Import ListNotations.
 
 (* ---- DA path ------------------------------------------------------------------------------------ *)
@@ -49,6 +50,52 @@ Theorem C03_no_halt_da_full : forall pk g, g_proposer g = Addr pk -> forall now 
   node_final g now tb s m = node_final g now tb s gs.
 Proof. exact no_halt_da_full. Qed.
 Print Assumptions C03_no_halt_da_full.
+
+(* ---- crowded DA heights: the read of a DA height through RetrieveWithHelpers' batches of 100 ids ------ *)
+(* whatever the number of blobs at a DA height, the batched read hands over every one of them, once, in id
+   order (nothing behind the 100th, 200th, ... blob is lost) ... *)
+Theorem C03_da_height_fetch_full : forall (bl : list blob), fetched bl = bl.
+Proof. exact (fetched_all blob). Qed.
+Print Assumptions C03_da_height_fetch_full.
+
+(* ... with Get call number k asking for the ids from 100k on, 100 of them or what is left, never none (the
+   observable the harness compares) — the batches of property C09's model (C09_chunks_full) ... *)
+Theorem C03_da_height_calls_full : forall (bl : list blob) k o n, nth_error (get_calls bl) k = Some (o, n) ->
+  o = N.of_nat (k * batch_size) /\ n = N.of_nat (Nat.min batch_size (length bl - k * batch_size)) /\ (0 < n)%N.
+Proof. exact (get_calls_nth blob). Qed.
+Print Assumptions C03_da_height_calls_full.
+
+Theorem C03_da_height_calls_as_C09 : forall (bl : list blob) (l' : list Retriever.blob), length bl = length l' ->
+  get_calls bl = map (fun oc => (N.of_nat (fst oc), N.of_nat (length (snd oc)))) (Retriever.chunks l').
+Proof. exact (get_calls_as_C09 blob). Qed.
+Print Assumptions C03_da_height_calls_as_C09.
+
+(* ... so a DA height is processed exactly as the sequence of its blobs *)
+Theorem C03_da_height_as_blobs_full : forall g now tb s bl,
+  fst (node_step g now tb s (IDAHeight bl)) = node_final g now tb s (map IDA bl).
+Proof. exact node_step_height. Qed.
+Print Assumptions C03_da_height_as_blobs_full.
+
+(* one DA height carrying the proposer's blobs gb and ANY number of third-party blobs ab at ANY positions
+   (ahead of, between, behind the proposer's; 130, 350, 10^6 of them): the node is left exactly where the
+   height with the proposer's blobs alone leaves it *)
+Theorem C03_crowded_height_full : forall pk g, g_proposer g = Addr pk -> forall now tb gb ab mb,
+  interleave gb ab mb -> forallb (blob_adversarial pk) ab = true ->
+  forall s, hstore_inv pk s ->
+  fst (node_step g now tb s (IDAHeight mb)) = fst (node_step g now tb s (IDAHeight gb)).
+Proof. exact crowded_height_full. Qed.
+Print Assumptions C03_crowded_height_full.
+
+(* C03_no_halt_da_full for traffic given per DA height: genuine traffic gs (DA heights, single blobs, P2P), third-
+   party DA material adv (whole heights or single blobs), merged in any way that respects the order of each once
+   the heights are spelled out blob by blob — third-party blobs inside the proposer's DA heights included *)
+Theorem C03_no_halt_da_heights_full : forall pk g, g_proposer g = Addr pk -> forall now tb gs adv m,
+  interleave (expand gs) (expand adv) (expand m) ->
+  forallb (init_ok pk) gs = true -> forallb (da_adversarial pk) adv = true ->
+  forall s, hstore_inv pk s ->
+  node_final g now tb s m = node_final g now tb s gs.
+Proof. exact no_halt_da_heights_full. Qed.
+Print Assumptions C03_no_halt_da_heights_full.
 
 (* ---- P2P path: the header store of a light (header-only) node and of a full node ------------------ *)
 (* full statement: a store holding only proposer-signed headers still does after any gossip item.
@@ -109,6 +156,19 @@ Definition da_adv : list item :=
 Example ex_da_guard : forallb (da_adversarial W.pk) da_adv = true /\ forallb (init_ok W.pk) W.genuine = true
   /\ forallb (init_ok W.pk) W.genuine_p2p = true.
 Proof. vm_compute. repeat split; reflexivity. Qed.
+(* a DA height with 130 third-party blobs (junk, undecodable headers, forgeries) ahead of the proposer's header
+   and data of block 2, 57 more behind: 3 Get calls, the last one partial and holding the proposer's blobs; the
+   node ends where the genuine traffic alone leaves it; a read that stopped after the full batches would not *)
+Definition crowd_front : list blob := repeat BJunk 60 ++ repeat BHdrUndecodable 30 ++ repeat (BHdr W.fsh1) 40.
+Definition crowded : list blob := repeat BJunk 100 ++ crowd_front ++ [BHdr W.sh2; BData W.sd2] ++ repeat (BData W.fsd) 57.
+Example ex_crowded_height :
+  (get_calls crowded = [(0, 100); (100, 100); (200, 89)]) /\
+  (forallb (blob_adversarial W.pk) (repeat BJunk 100 ++ crowd_front ++ repeat (BData W.fsd) 57) = true) /\
+  (node_final W.gen W.now W.tb W.s0 [IDA (BHdr W.sh1); IDAHeight crowded] = node_final W.gen W.now W.tb W.s0 W.genuine) /\
+  (snd (node_step W.gen W.now W.tb (node_final W.gen W.now W.tb W.s0 [IDA (BHdr W.sh1)]) (IDAHeight crowded)) = 12) /\
+  (n_height (node_final W.gen W.now W.tb W.s0 [IDA (BHdr W.sh1); IDAHeight (firstn 200 crowded)]) = 1).
+Proof. vm_compute. repeat split; reflexivity. Qed.
+
 Example ex_harmless_p2p : forallb (harmless W.pk) [IGossipH own_sh; IGossipD W.FD false] = true.
 Proof. vm_compute. reflexivity. Qed.
 
